@@ -669,16 +669,11 @@ def c19(ctx, rep):
     rep.ob("C19.call-reached", "main", len(reach) >= 8, "feasible paths of main reaching anonymize_files: %d" % len(reach), W(f_main), nontrivial=False)
     bad = {"undo-and-anonymize": 0, "undo-without-salt": 0, "dump-without-ips": 0}
     for path, call in reach:
-        undo, ips = path.truth(A_("undo")), path.truth(A_("anonymize_ips"))
-        salt_none = path.truth(isnone(A_("salt")))
-        dump_none = path.truth(isnone(A_("dump_ip_map")))
-        if undo is True and ips is not False:
+        if path.possible({A_("undo"): True, A_("anonymize_ips"): True}) is not False:
             bad["undo-and-anonymize"] += 1
-        if undo is True and salt_none is not False:
+        if path.possible({A_("undo"): True, isnone(A_("salt")): True}) is not False:
             bad["undo-without-salt"] += 1
-        if undo is None:
-            bad["undo-and-anonymize"] += 1
-        if dump_none is not True and ips is not True:
+        if path.possible({isnone(A_("dump_ip_map")): False, A_("anonymize_ips"): False}) is not False:
             bad["dump-without-ips"] += 1
     for k, v in bad.items():
         rep.ob("C19.validation-dominates", k, v == 0, "paths reaching anonymize_files on which the combination '%s' was not excluded by an earlier raising guard: %d of %d" % (k, v, len(reach)), W(f_main), key="C19.validation-dominates|%s" % k)
